@@ -248,7 +248,7 @@ func TestTableKeys(t *testing.T) {
 				adv[m.Name] = true
 			}
 			for k := range keys {
-				if !adv[k] && !(ty.K == hs.KObj && (k == "a" || k == "b")) {
+				if !adv[k] && !(ty.K == hs.KObj && len(k) == 1) {
 					pk.Class(fmt.Sprintf("unadvertised-runtime-member:%s:%s.%s", lib, kindName(ty), k))
 				}
 			}
@@ -540,6 +540,37 @@ func indexCases() []Case {
 					}
 				}
 			}
+			// a result taken from the list is a value of its own: a later assignment to the slot it
+			// came from must not change it (scalars have value semantics)
+			if scalarKind(*ty.Elem) {
+				for _, recv0 := range receivers(ty) {
+					if len(recv0.(*hs.ListV).Elems) == 0 {
+						continue
+					}
+					nv := sampleValues(*ty.Elem)[len(sampleValues(*ty.Elem))-1]
+					for _, via := range []string{"last", "[]"} {
+						mk(ty, via+";[]=", recv0, lit(nv), func(p *prog, recv hs.Value) (bool, bool, string) {
+							l := recv.(*hs.ListV)
+							old := l.Elems[len(l.Elems)-1]
+							p.lines = append(p.lines, bind("v", nv, *ty.Elem, true)...)
+							if via == "last" {
+								p.stmt("let r = recv.last();")
+							} else {
+								p.stmt("let r = recv[-1];")
+							}
+							p.stmt("recv[-1] = v;")
+							l.Elems[len(l.Elems)-1] = nv
+							if via == "last" {
+								p.use("r", hs.TOpt(*ty.Elem), some(old), 1, "")
+							} else {
+								p.use("r", *ty.Elem, old, 1, "")
+							}
+							p.use("recv", ty, recv, 1, "")
+							return true, false, ""
+						})
+					}
+				}
+			}
 		case hs.KStr:
 			for _, recv0 := range receivers(ty) {
 				for _, ix := range indexSet(recv0) {
@@ -585,6 +616,21 @@ func indexCases() []Case {
 						kt := typeOf(v)
 						p.stmt("let r = recv[k] as %s;", kt.Src())
 						p.use("r", kt, v, 1, "")
+						p.use("recv", ty, recv, 1, "")
+						return true, false, ""
+					})
+					if ty.K != hs.KAnyObj || k == "" {
+						continue
+					}
+					// the any-object member operator `recv->key` (advertised type ?any)
+					mk(ty, "->", recv0, k, func(p *prog, recv hs.Value) (bool, bool, string) {
+						v, found := recv.(*hs.ObjV).M[k]
+						p.stmt("println((recv->%s).is_some());", k)
+						p.expect("%v", found)
+						if found && scalarKind(typeOf(v)) {
+							p.stmt("let r = (recv->%s) as %s;", k, hs.TOpt(typeOf(v)).Src())
+							p.use("r", hs.TOpt(typeOf(v)), some(v), 1, "")
+						}
 						p.use("recv", ty, recv, 1, "")
 						return true, false, ""
 					})
